@@ -289,12 +289,13 @@ struct Exec {
   std::unique_ptr<M> m;
   Bars cmp_bars;                 // reference barcode of the order before the running operation (for the comparators)
   std::vector<int> cmp_order;
-  std::string fam = C::family();
+  std::string fam;
   int key_level = 1;             // 0 semantic, 1 + summaries of lazy/permutation state, 2 every container verbatim
   std::string last = "start";    // kind of the last operation (part of the class strings)
   bool dead = false;             // an exception escaped the library: the object is not used any further
 
   Exec(const Universe& u, bool expl) : U(u), explicit_ids(expl) {
+    fam = C::family() + (expl ? "+ids" : "");
     md.cid.assign(U.cells.size(), -1);
     if constexpr (!RU && !BAR) {
       std::function<bool(Index, Index)> bc = [this](Index a, Index b) { return ev(a, true) < ev(b, true); };
@@ -1034,12 +1035,14 @@ struct Driver {
   bool explicit_ids = false;
   int max_cells = 100;
   int key_level = 1;            // --key semantic|summary|full
+  std::vector<int> prefix;      // --pre full: every history starts with the insertion of all cells (canonical order)
   bool probe_crashes = false;   // --probe 1: find process-killing transitions in forked probes and explore past them
 
   std::string describe(const std::vector<int>& hist) const {
     std::ostringstream o;
     o << "cfg=" << C::name() << ";uni=" << U.name << ";ids=" << (explicit_ids ? "explicit" : "default")
-      << ";ops=" << vf::join(hist) << ";text=";
+      << ";pre=" << (prefix.empty() ? "none" : "full") << ";ops=" << vf::join(hist) << ";text=";
+    if (!prefix.empty()) o << "[all cells inserted] ";
     for (int op : hist) {
       OpKind k = kind_of(op);
       o << op_name[k];
@@ -1050,19 +1053,26 @@ struct Driver {
     return o.str();
   }
   // one history, executed and observed without reporting (used inside the forked probes)
+  void set_prefix_full() {
+    prefix.clear();
+    for (size_t c = 0; c < U.cells.size(); ++c) prefix.push_back(enc(INS, (int)c));   // cells are sorted by dimension
+  }
   void run_quiet(const std::vector<int>& hist) const {
     Exec<C> e(U, explicit_ids);
+    for (int op : prefix) e.apply(op, false);
     for (int op : hist) e.apply(op, true);
     (void)e.key();
     e.observe();
   }
   std::string crash_class(int op) const { return "C06:crash:" + C::family() + ":after_" + op_name[kind_of(op)]; }
   std::vector<int> enabled(const std::vector<int>& hist) const {
+    vf::set_case(describe(hist) + "[computing the enabled operations]");
     g_silent = true;
     long before = g_bad;
     std::vector<int> r;
     {
       Exec<C> e(U, explicit_ids);
+      for (int op : prefix) e.apply(op, false);
       for (int op : hist) e.apply(op, false);
       e.observe();                      // a state that already disagrees with the oracle is not expanded
       if (g_bad == before && !e.dead) {
@@ -1075,6 +1085,7 @@ struct Driver {
       }
     }
     g_silent = false;
+    vf::end_case();
     if (!probe_crashes) return r;
     // transitions that kill the process (sanitizer report, signal, hang) are found in a forked probe, reported from
     // here, and not handed to the explorer
@@ -1101,6 +1112,7 @@ struct Driver {
   std::string run(const std::vector<int>& hist) const {
     long before = g_bad;
     Exec<C> e(U, explicit_ids);
+    for (int op : prefix) e.apply(op, false);
     for (size_t i = 0; i < hist.size(); ++i) e.apply(hist[i], i + 1 == hist.size());
     e.key_level = key_level;
     std::string k = key_level >= 2 ? e.key() : e.key_abs();   // before any read through the public interface
@@ -1132,6 +1144,7 @@ int run_cfg(const vf::Args& a, double t0) {
     if (kv["cfg"] != C::name()) return -1;
     d.U = Universe::make(kv["uni"]);
     d.explicit_ids = kv["ids"] == "explicit";
+    if (kv["pre"] == "full") d.set_prefix_full();
     std::vector<int> h = vf::parse_ints(kv["ops"]);
     for (size_t n = 0; n <= h.size(); ++n) {   // every prefix: the first step that goes wrong is shown
       std::vector<int> p(h.begin(), h.begin() + n);
@@ -1152,6 +1165,7 @@ int run_cfg(const vf::Args& a, double t0) {
     return 0;
   }
   d.U = Universe::make(uni);
+  if (a.get("pre", "none") == "full") d.set_prefix_full();
   vf::ExploreCfg cfg;
   cfg.max_depth = (int)a.geti("depth", 1000);
   cfg.workers = (int)a.geti("workers", 1);
@@ -1165,8 +1179,11 @@ int run_cfg(const vf::Args& a, double t0) {
   s.add("ev.traces", r.transitions + 1 + r.validated);
   s.add("ev.evaluations", r.transitions + 1 + r.validated);
   s.add("ev.nontrivial", r.states);
-  if (!r.closed) s.add("ev.incomplete", 1);
-  std::string tag = C::name() + "." + uni + (d.explicit_ids ? ".explicit" : ".default");
+  const bool depth_bounded = a.kv.count("depth") != 0;   // a registered depth bound that was completed is a complete bound
+  const bool complete = !r.failed && !r.deadline_hit && (r.closed || (depth_bounded && r.completed_depth >= cfg.max_depth));
+  if (!complete) s.add("ev.incomplete", 1);
+  std::string tag = C::name() + "." + uni + (d.explicit_ids ? ".explicit" : ".default") + (d.prefix.empty() ? "" : ".full") +
+                    (d.key_level == 0 ? ".semantic" : (d.key_level == 1 ? ".summary" : ".fullkey"));
   s.add("closed." + tag, r.closed ? 1 : 0);
   s.add("states." + tag, r.states);
   s.maxi("depth." + tag, r.completed_depth);
